@@ -5,8 +5,9 @@
    [T2] copy_value: the value half is the block appended below (cross-message, single-segment
    destination, capability-free values, word-aligned sources only); the independence half is
    Properties_C16_indep.v.  Not proved: the value of a copy inside one message or into a
-   multi-segment destination, and that a forced copy inside one message is deep (see the comment
-   in Properties_C16_indep.v). *)
+   multi-segment destination; for copies inside one message C16_forced_copy_fresh
+   (Properties_C16_indep.v) shows that every copying writePtr call points its slot at a new object,
+   the closure over the whole copied tree is not stated as one theorem. *)
 From CV Require Import Core.Builder Core.ReaderFacts Core.ArithFacts Core.BuilderFacts Core.AllocProofs
   Core.WritePtrProofs Core.HeapProofs Core.CopyProofs.
 Open Scope Z_scope.
